@@ -39,12 +39,13 @@ type Item struct {
 	fault    string
 	ord      [4]int // ordinals under (kind,src) (kind,*) (*,src) (*,*)
 	// result
-	ok   bool
-	rev  uint64
-	ent  leader.Entry
-	wt   *watcher
-	err  error
-	done chan struct{}
+	ok    bool
+	rev   uint64
+	ent   leader.Entry
+	wt    *watcher
+	err   error
+	plain string // the refusal's text in the plain dialect (set by apply for the store's own refusals)
+	done  chan struct{}
 	// delivery
 	ev wev
 }
@@ -218,22 +219,30 @@ func (h *Handle) issue(kind, key string, val []byte, exp uint64) *Item {
 func (h *Handle) Create(key string, val []byte, _ ...interface{}) (uint64, error) {
 	it := h.issue("create", key, val, 0)
 	<-it.done
-	return it.rev, it.err
+	return it.rev, h.w.outErr(it)
 }
 
 func (h *Handle) Update(key string, val []byte, rev uint64, _ ...interface{}) (uint64, error) {
 	it := h.issue("update", key, val, rev)
 	<-it.done
-	return it.rev, it.err
+	return it.rev, h.w.outErr(it)
 }
 
 func (h *Handle) Get(key string) (leader.Entry, error) {
 	it := h.issue("get", key, nil, 0)
 	<-it.done
 	if it.err != nil {
-		return nil, it.err
+		return nil, h.w.outErr(it)
 	}
 	return it.ent, nil
+}
+
+// outErr is the error value handed to the library: the store's own refusals in the scenario's dialect.
+func (w *World) outErr(it *Item) error {
+	if it.err == nil || w.sc.ErrDialect != "plain" || it.plain == "" {
+		return it.err
+	}
+	return fmt.Errorf("%s", it.plain)
 }
 
 func (h *Handle) Delete(key string) error {
@@ -248,6 +257,9 @@ func (h *Handle) Watch(key string, _ ...interface{}) (leader.Watcher, error) {
 	if it.err != nil {
 		return nil, it.err
 	}
+	h.w.mu.Lock()
+	it.wt.handed = true
+	h.w.mu.Unlock()
 	return &watchHandle{w: h.w, wt: it.wt}, nil
 }
 
@@ -925,6 +937,13 @@ func (w *World) release(it *Item, now int64) {
 		it.wt = nil
 	}
 	w.remove(it)
+	if it.src == "hb" && it.err != nil {
+		// a refused or failed refresh: the next quiescent point is recorded even if nothing visible changes
+		// (the monitor judges "demoted at the completion of the next heartbeat attempt" there)
+		if in := w.insts[it.inst]; in != nil {
+			in.lastSnap = ""
+		}
+	}
 	w.tr.Emit(it.inst, "op_resp", KV{"op": it.id, "kind": it.kind, "src": it.src, "ok": it.err == nil, "err": errName(it.err),
 		"rev": int64(it.rev), "lat": now - it.issuedUs, "lost": it.fault == "lose_ack"})
 	it.done <- struct{}{}
@@ -940,6 +959,7 @@ func (w *World) apply(it *Item, nowUs int64) {
 	case "create":
 		if r := s.live(it.key, now); r != nil {
 			it.err = errKeyExists(r.rev)
+			it.plain = "key already exists"
 		} else {
 			w.write(it.key, it.val, it.inst, false, now)
 			it.rev = s.seq
@@ -947,6 +967,10 @@ func (w *World) apply(it *Item, nowUs int64) {
 	case "update":
 		if last := s.lastSeq(it.key, now); last != it.exp {
 			it.err = errWrongLastSeq(last)
+			it.plain = "revision mismatch"
+			if s.live(it.key, now) == nil {
+				it.plain = "key not found"
+			}
 		} else {
 			w.write(it.key, it.val, it.inst, false, now)
 			it.rev = s.seq
@@ -958,6 +982,7 @@ func (w *World) apply(it *Item, nowUs int64) {
 			w.describeVal(kv, r.val, true)
 		} else {
 			it.err = nats.ErrKeyNotFound
+			it.plain = "key not found"
 		}
 	case "delete":
 		w.write(it.key, nil, it.inst, true, now)
@@ -1411,7 +1436,16 @@ func (w *World) cleanup() int {
 	}
 	w.wait()
 	n := libGoroutines()
-	w.tr.Emit("env", "final", KV{"leaked": n})
+	// every instance has been stopped: a watcher the store handed to the library and the library never stopped is left behind
+	open := 0
+	w.mu.Lock()
+	for _, wt := range w.st.watchers {
+		if wt.handed && !wt.stopped {
+			open++
+		}
+	}
+	w.mu.Unlock()
+	w.tr.Emit("env", "final", KV{"leaked": n, "wopen": open})
 	return n
 }
 
